@@ -13,7 +13,7 @@ import z3
 from .values import *  # noqa
 from .engine import Unsupported, PyRaise, raise_py, EnvFunc, EnvModule, IterV
 from .env import is_str, is_bytes, int_term, term_of
-from . import envlib as L
+from . import libfns as L
 
 _I, _B = z3.IntSort(), z3.BoolSort()
 text_size = z3.Function('encoded_size', _I, STR, _I)       # bytes on disk of text under codec k
@@ -31,7 +31,7 @@ def fs(st):
 
 
 class FsMixin:
-    FAULTS = True       # model nondeterministic OSError on file operations
+    FAULT_OPS = None    # None: every file operation may raise OSError; else the set of ops that may
 
     def install_fs(self):
         m = self.env.modules
@@ -77,9 +77,7 @@ class FsMixin:
         t = term_of(p)
         head = it.st.fresh('dirname', STR)
         tail = it.st.fresh('basename', STR)
-        L.A(it, z3.And(t == z3.Concat(head, z3.StringVal('/'), tail),
-                       z3.Not(z3.Contains(tail, z3.StringVal('/')))),
-            'os.path.split: head + "/" + tail == path, tail has no "/" (paths built by join, A-POSIX)')
+        self.env.use('os.path.split: some (head, tail) pair (no fact about them is used)')
         return (SV('str', head), SV('str', tail))
 
     def op_getsize(self, it, a, k):
@@ -102,6 +100,8 @@ class FsMixin:
         n = a[0]
         r = it.st.fresh('urandom', BYTES)
         it.st.assume(z3.Length(r) == int_term(n))
+        if isinstance(n, int):
+            it.st.ghost.setdefault('known_len', {})[r.get_id()] = n
         self.env.use('os.urandom(n): n fresh bytes')
         return SV('bytes', r)
 
@@ -111,14 +111,20 @@ class FsMixin:
         return SV('int', it.st.world['pid'])
 
     def maybe_oserror(self, it, what):
-        if not self.FAULTS:
+        if self.FAULT_OPS is not None and what not in self.FAULT_OPS:
             return
+        if what in ('makedirs', 'removedirs', 'remove') and self.oserror_suppressed(it):
+            return      # the exception would be swallowed at once; success/failure not tracked for dirs
         if it.st.decide(2) == 1:
             it.st.effect('FAULT', op=what)
             raise_py('OSError', what)
 
-    def in_suppress(self, it):
-        return bool(it.suppress_stack)
+    def oserror_suppressed(self, it):
+        for cm in it.suppress_stack:
+            for c in cm.fields['classes']:
+                if self.env.exc_class_name(c) in ('OSError', 'IOError', 'EnvironmentError', 'Exception', 'BaseException'):
+                    return True
+        return False
 
     def os_makedirs(self, it, a, k):
         # directories are not tracked at this level: success or OSError, no file affected
@@ -130,6 +136,12 @@ class FsMixin:
         w = fs(it.st)
         p = term_of(a[0])
         self.maybe_oserror(it, 'remove')
+        if self.oserror_suppressed(it) and (self.FAULT_OPS is None or 'remove' in self.FAULT_OPS):
+            # failure is swallowed: the file is removed or (on a fault) stays
+            ok = it.st.fresh('remove_ok', z3.BoolSort())
+            w['fs_exists'] = z3.Store(w['fs_exists'], p, z3.And(z3.Select(w['fs_exists'], p), z3.Not(ok)))
+            it.st.effect('FILE_REMOVE', path=p, maybe=ok)
+            return None
         if not it.st.branch(z3.Select(w['fs_exists'], p)):
             raise_py('FileNotFoundError', 'remove')
         w['fs_exists'] = z3.Store(w['fs_exists'], p, z3.BoolVal(False))
@@ -176,8 +188,10 @@ class FsMixin:
             raise_py('ValueError', "binary mode doesn't take encoding/errors/newline")
         self.env.use("open(): 'x' creates exclusively else FileExistsError; reading a missing file raises "
                      "FileNotFoundError; any call may raise OSError")
-        self.maybe_oserror(it, 'open')
         exists = z3.Select(w['fs_exists'], p)
+        if 'x' in mode and it.st.branch(exists):
+            raise_py('FileExistsError', 'exists')       # an OSError like any injected fault
+        self.maybe_oserror(it, 'open')
         cid = 0 if binary else self.codec_id(encoding, errors, newline)
         f = Obj('file', {'path': path, 'mode': mode, 'binary': binary, 'codec': cid, 'closed': False,
                          'pos0': True})
@@ -335,4 +349,8 @@ class FsMixin:
         raise Unsupported('stream.read outside chunk iteration')
 
     def callable_iter(self, it, f, sentinel):
-        return Obj('calliter', {'func': f, 'sentinel': sentinel})
+        o = Obj('calliter', {'func': f, 'sentinel': sentinel})
+        src = getattr(f, 'stream_source', None)
+        if src is not None and sentinel == b'':
+            o.fields['stream'] = src
+        return o
